@@ -13,8 +13,10 @@ import (
 	"github.com/lightningnetwork/lnd/channeldb"
 	"github.com/lightningnetwork/lnd/fn/v2"
 	"github.com/lightningnetwork/lnd/input"
+	"github.com/lightningnetwork/lnd/lntest/mock"
 	"github.com/lightningnetwork/lnd/lnwallet"
 	"github.com/lightningnetwork/lnd/lnwallet/chainfee"
+	"github.com/lightningnetwork/lnd/lnwire"
 
 	"verif/chansim"
 	"verif/simcore"
@@ -108,6 +110,27 @@ func zzRunC04(r *simcore.Run) {
 			}
 			vp.KV.Close()
 		}
+		// The state whose revocation is on the wire right now: the cheater
+		// broadcasts it at the moment its revoke_and_ack reaches the victim,
+		// and the victim's link persists the revocation between two database
+		// reads of the chain watcher that is handling the spend.
+		for victim := 0; victim < 2; victim++ {
+			q := s.Q[1-victim]
+			if len(q) == 0 {
+				continue
+			}
+			rev, ok := q[0].(*lnwire.RevokeAndAck)
+			if !ok {
+				continue
+			}
+			for _, rv := range revoked {
+				if rv.side != victim && rv.height == s.M.S[victim].RemoteTail.Height {
+					vp := s.ForkParty(victim)
+					zzPunishRace(r, vp, rv, rev)
+					vp.KV.Close()
+				}
+			}
+		}
 		r.Logf("punish check (%s): %d revoked states known", when, len(revoked))
 	}
 	mode.OnFinish = func(s *chansim.Sim) {
@@ -176,6 +199,93 @@ func zzPunish(r *simcore.Run, s *chansim.Sim, vp *chansim.Party, rv *zzRevoked, 
 		r.Count("probe_revlog_without_amounts")
 	default:
 		r.Fail("retribution-error", "%s: NewBreachRetribution without the spend transaction: %v", who, err)
+	}
+}
+
+// zzPunishRace: the revocation of rv is delivered to the victim's channel
+// (a separate object on the same database, as the link's is) at the entry of
+// the k-th read transaction the chain watcher performs while it handles the
+// spend of rv's commitment. Whatever the watcher read before is older than
+// what it reads after. Either verdict is right - the commitment it saw as
+// current (a remote force close), or a breach with a valid retribution - but
+// it must reach one of them.
+func zzPunishRace(r *simcore.Run, vp *chansim.Party, rv *zzRevoked, rev *lnwire.RevokeAndAck) {
+	if vp.Aged == nil {
+		return
+	}
+	if vp.Aged.ChanType.IsTaproot() {
+		// a freshly loaded taproot channel has no musig2 session to refresh
+		// before channel_reestablish; the scenario is run on the other types
+		r.Count("probe_watcher_race_skipped_taproot")
+		return
+	}
+	who := fmt.Sprintf("victim %s, revocation of height %d of %s persisted while the spend is handled", vp.Name, rv.height, [...]string{"A", "B"}[rv.side])
+	tx := rv.commit.CommitTx
+	var got []*lnwallet.BreachRetribution
+	notifier := &mock.ChainNotifier{
+		SpendChan: make(chan *chainntnfs.SpendDetail, 1),
+		EpochChan: make(chan *chainntnfs.BlockEpoch, 1),
+		ConfChan:  make(chan *chainntnfs.TxConfirmation, 1),
+	}
+	w, err := newChainWatcher(chainWatcherConfig{
+		chanState: vp.Aged,
+		notifier:  notifier,
+		signer:    vp.Signer,
+		contractBreach: func(b *lnwallet.BreachRetribution) error {
+			got = append(got, b)
+			return nil
+		},
+		extractStateNumHint: lnwallet.GetStateNumHint,
+		auxLeafStore:        fn.None[lnwallet.AuxLeafStore](),
+		auxResolver:         fn.None[lnwallet.AuxContractResolver](),
+	})
+	r.Must(err, "newChainWatcher")
+	sub := w.SubscribeChannelEvents()
+	defer sub.Cancel()
+
+	at := 1 + r.Draw(4)
+	reads, fired := 0, false
+	var revErr error
+	vp.KV.OnTx = func(write bool) {
+		if write || fired {
+			return
+		}
+		reads++
+		if reads == at {
+			fired = true
+			_, _, revErr = vp.Chan.ReceiveRevocation(rev)
+		}
+	}
+	err = w.handleCommitSpend(zzSpendDetail(tx, 700000, vp.Aged.FundingOutpoint))
+	vp.KV.OnTx = nil
+	if !fired {
+		r.Count("probe_watcher_race_not_reached")
+		return
+	}
+	if revErr != nil {
+		r.Harness("%s: the in-flight revocation is refused: %v", who, revErr)
+	}
+	r.Count("fault_revocation_persisted_between_watcher_reads")
+	if err != nil {
+		r.Fail("breach-not-recognised", "%s (before the watcher's read #%d): the chain watcher fails on the spend: %v", who, at, err)
+	}
+	select {
+	case <-sub.ContractBreach:
+		if len(got) != 1 {
+			r.Fail("breach-not-recognised", "%s: ContractBreach dispatched but %d retributions handed to the breach arbitrator", who, len(got))
+		}
+		if got[0].BreachTxHash != tx.TxHash() || got[0].RevokedStateNum != rv.height {
+			r.Fail("breach-not-recognised", "%s: retribution names tx %v state %d", who, got[0].BreachTxHash, got[0].RevokedStateNum)
+		}
+		zzCheckRetribution(r, who, got[0], rv, vp)
+		r.Count("probe_watcher_race_judged_breach")
+	default:
+		select {
+		case <-sub.RemoteUnilateralClosure:
+			r.Count("probe_watcher_race_judged_current_state")
+		default:
+			r.Fail("breach-not-recognised", "%s (before the watcher's read #%d): neither a breach nor a remote force close was dispatched", who, at)
+		}
 	}
 }
 
